@@ -86,6 +86,10 @@ val gr_dc : gview -> nat list -> bool * nat list option
 
 val gr_ds : gview -> nat list -> bool * nat list option
 
+val guarded_disj :
+  (nat -> cnf -> lit list -> answer) -> enc -> nat list coq_M -> bool ->
+  assignment option coq_M
+
 val co_dc :
   (nat -> cnf -> lit list -> answer) -> nat -> enc -> gview -> nat list ->
   bool coq_M
@@ -96,8 +100,20 @@ val co_dc_cert :
 
 val st_a2e : comp -> assignment -> nat list
 
+val st_cc :
+  (nat -> cnf -> lit list -> answer) -> nat -> comp -> nat list -> bool ->
+  (assignment * bool) option coq_M
+
+val st_se_loop :
+  (nat -> cnf -> lit list -> answer) -> nat -> comp list -> nat list -> nat
+  list option coq_M
+
 val st_se :
   (nat -> cnf -> lit list -> answer) -> nat -> gview -> nat list option coq_M
+
+val st_accept_loop :
+  (nat -> cnf -> lit list -> answer) -> nat -> nat list -> bool -> bool ->
+  comp list -> nat list -> bool -> (bool * nat list option) coq_M
 
 val st_accept :
   (nat -> cnf -> lit list -> answer) -> nat -> gview -> nat list -> bool ->
